@@ -111,6 +111,32 @@ impl Oracle {
             Oracle::Exact => crate::vals::typed_eq(t, got, reference),
             Oracle::Trunc { pre, scale, all_public, wraps, plus_one, exact } => {
                 if *all_public {
+                    // truncation of public values is exact: the plaintext evaluator's result, which must itself be the
+                    // integer quotient pre / scale (rounded toward zero for negative values, as for every signed type)
+                    // computed here in harness arithmetic - the evaluator is not its own reference
+                    if is_leaf_type(t) && crate::vals::as_bytes(got).is_some() {
+                        let st = t.get_scalar_type();
+                        let mask = crate::vals::st_mask(st);
+                        let g = crate::vals::dec(got, t);
+                        let p = crate::vals::dec(pre, t);
+                        if g.len() == p.len() && st != ciphercore_base::data_types::BIT {
+                            for i in 0..g.len() {
+                                let q: u128 = if st.is_signed() {
+                                    let x = crate::vals::to_signed(p[i], st);
+                                    if *scale > i128::MAX as u128 {
+                                        0
+                                    } else {
+                                        (x / (*scale as i128)) as u128 & mask
+                                    }
+                                } else {
+                                    (p[i] & mask) / *scale
+                                };
+                                if g[i] & mask != q {
+                                    return false;
+                                }
+                            }
+                        }
+                    }
                     return crate::vals::typed_eq(t, got, reference);
                 }
                 if !is_leaf_type(t) {
